@@ -1063,8 +1063,40 @@ impl_wrapper!(impl<T: TS> TS for std::cell::Cell<T>);
 impl_wrapper!(impl<T: TS> TS for std::cell::RefCell<T>);
 impl_wrapper!(impl<T: TS> TS for std::sync::Mutex<T>);
 impl_wrapper!(impl<T: TS> TS for std::sync::RwLock<T>);
-// serde serializes a `Weak<T>` like the `Option<Arc<T>>` obtained by upgrading it
-impl_shadow!(as Option<std::sync::Arc<T>>: impl<T: TS + ?Sized> TS for std::sync::Weak<T>);
+// serde serializes a `Weak<T>` like the `Option<Arc<T>>` obtained by upgrading it.
+// This is not an `impl_shadow!`, which would take over `Option`'s `OptionInnerType` without its
+// `IS_OPTION` and thereby lose the `| null` under `#[ts(optional_fields)]`.
+impl<T: TS + ?Sized> TS for std::sync::Weak<T> {
+    type WithoutGenerics = Self;
+    type OptionInnerType = Self;
+    fn name() -> String {
+        <Option<std::sync::Arc<T>> as crate::TS>::name()
+    }
+    fn inline() -> String {
+        <Option<std::sync::Arc<T>> as crate::TS>::inline()
+    }
+    fn inline_flattened() -> String {
+        <Option<std::sync::Arc<T>> as crate::TS>::inline_flattened()
+    }
+    fn visit_dependencies(v: &mut impl TypeVisitor)
+    where
+        Self: 'static,
+    {
+        <Option<std::sync::Arc<T>> as crate::TS>::visit_dependencies(v);
+    }
+    fn visit_generics(v: &mut impl TypeVisitor)
+    where
+        Self: 'static,
+    {
+        <Option<std::sync::Arc<T>> as crate::TS>::visit_generics(v);
+    }
+    fn decl() -> String {
+        panic!("{} cannot be declared", <Self as crate::TS>::name())
+    }
+    fn decl_concrete() -> String {
+        panic!("{} cannot be declared", <Self as crate::TS>::name())
+    }
+}
 
 // serde serializes `PhantomData<T>` as a unit struct (`null`), whatever `T` is
 impl<T: ?Sized> TS for std::marker::PhantomData<T> {
